@@ -67,18 +67,33 @@ CHECKS = {
          "in force, __exit__ restores exactly it; the stack discipline for histories of any length follows by induction over the contracts. "
          "A bounded history check (all sequences up to length 6) runs in addition.",
          "string.Formatter().parse and str.format assumed (X-STD).", "all clauses are discharged obligations; bounded histories extra", "5/C14"),
- "C15": ("other", "Bounded: graph structure (nodes/edges/labels/ports/ids) against the spec for generated chain dicts; dot acceptance on a sample.",
-         "viewer.py not yet under contract; Graphviz itself out of reach.", "bounded: generated chain dicts", "5/C15"),
- "C16": ("other", "Bounded: every option combination on generated tables (ties, 1e-12..1). _find_decay_modes/_decay_mode_details proved.",
-         "print_decay_modes itself not yet under contract.", "bounded: tables x options", "5/C16"),
- "C17": ("other", "Bounded: read_ampgen against an independent reference reader on generated option texts.", "modeling/ not yet under contract.",
-         "bounded: generated option files", "5/C17"),
- "C18": ("other", "Bounded: permutation sets exhaustively over tree shapes <= 4 leaves; generated code per permutation for both languages.",
-         "modeling/ not yet under contract.", "bounded: exhaustive shapes + generated files", "5/C18"),
- "C19": ("other", "Bounded: same abstract model in both outputs, declared-before-used, compile(), string vs printed vs CLI. Clause 'runs against the "
-         "GooFit API' is not applicable (no GooFit here).", "modeling/ not yet under contract.", "bounded: generated files", "5/C19"),
- "C20": ("other", "Bounded: call sequences compared with first-call-in-fresh-interpreter references. Clause about PYTHONHASHSEED / fresh process is a "
-         "process-level experiment (bounded sample only).", "modeling/ not yet under contract.", "bounded: call sequences", "5/C20"),
+ "C15": ("other", "Bounded only: no function of viewer.py is under contract (the graph is built by closures nested in one method around graphviz calls and HTML "
+         "string templates, outside PyVC's subset). Graph structure (nodes/edges/labels/ports/ids) is compared with the spec on generated chain dicts; dot "
+         "acceptance on a sample. Nothing is counted as proved.",
+         "viewer.py not under contract; Graphviz itself out of reach.", "bounded stand-in only: generated chain dicts (no contract within the verifier's reach)", "5/C15"),
+ "C16": ("other", "Proved for every table and option combination: print_decay_modes refuses exactly the contradictory / out-of-range options (RuntimeError iff scale is "
+         "given with normalize or lies outside ]0,1]; DecayNotFound iff no table), and has an empty frame - printing writes to nothing that existed "
+         "(97 obligations); _find_decay_modes / _decay_mode_details proved (rows = lines of the first table, PHOTOS iff flagged and asked). What is printed "
+         "(order, ties, scaling, 7 significant digits) is text on stdout: bounded, every option combination on generated tables (ties, 1e-12..1).",
+         "Trusted: sorted() returns a permutation (no ordering facts used), print/str.format are opaque. ZeroDivisionError is declared possible without a condition (all-zero values).",
+         "bounded: tables x options", "5/C16"),
+ "C17": ("other", "Proved: the AmpGenTransformer callbacks that make the table rows and the event type (constant, variable, event_type, checkfixed, fixed, free: "
+         "name / flag / value / error verbatim, flag = int(text) > 0, names in the order written) and get_from_parser (rows of every statement, in file order). "
+         "Bounded: read_ampgen end to end against an independent reference reader on generated option texts (expansion, couplings, tags).",
+         "cplx_decay_line, decay, from_matched_line, expand_lines, read_ampgen (pandas, Lark) not under contract. Trusted: Lark hands a callback the children the grammar denotes; "
+         "a Token's str content is immutable.", "bounded: generated option files", "5/C17"),
+ "C18": ("other", "Proved: ModelDecay.is_vertex / __len__ / __getitem__ (a resonance is a node with exactly two daughters). Bounded: permutation sets exhaustively over "
+         "tree shapes <= 4 leaves; generated code per permutation for both languages.",
+         "vertexes (contract written, 22/25 obligations, unregistered), structure, list_structure (itertools.product) and goofit.py not under contract.",
+         "bounded: exhaustive shapes + generated files", "5/C18"),
+ "C19": ("other", "Bounded only: no function of goofit.py / ampgen2goofit.py is under contract (string templates over pandas tables, outside PyVC's subset). Same abstract "
+         "model in both outputs, declared-before-used, compile(), string vs printed vs CLI on generated files. Clause 'runs against the GooFit API' is not "
+         "applicable (no GooFit here). Nothing is counted as proved.", "modeling/goofit.py not under contract.",
+         "bounded stand-in only: generated files (no contract within the verifier's reach)", "5/C19"),
+ "C20": ("other", "Bounded only: the property is about process-wide class state across calls of read_ampgen (Lark + pandas), which is not under contract. Call sequences are "
+         "compared with first-call-in-fresh-interpreter references. Clause about PYTHONHASHSEED / fresh process is a process-level experiment (bounded "
+         "sample only). Nothing is counted as proved.", "modeling/ not under contract.",
+         "bounded stand-in only: call sequences (no contract within the verifier's reach)", "5/C20"),
 }
 
 
